@@ -22,15 +22,18 @@ LEVEL_TEXT = ('Bounded model checking of the two local mechanisms the property r
               'manager that never saw the copy rates it, at every later instant of a symbolic clock; (e) an iterative node lookup (real '
               'IterativeNodeFinder on a model event loop) over 2-4 contacts that are each honest, silent, answer garbage, answer an error or '
               'answer unusable contacts, with the outstanding probes completing in every order: it always ends, probes nobody twice, and '
-              'yields only contacts that replied, none twice, never the searching node.')
+              'yields only contacts that replied, none twice, never the searching node; (f) the same for an iterative value lookup (real '
+              'IterativeValueFinder) over 2-3 contacts that have no value, are silent, answer garbage / an error / without a token, hold two '
+              'announcers, list an unusable announcer or hold two pages: it ends, asks nobody twice for one page and yields only well-formed '
+              'public announcer addresses that were really reported, none twice.')
 LEVEL_NOTE = ('Trusted: z3, the interpreter (paths replayed natively), the stub protocol/peer-manager objects, the model event loop of (e) '
               '(call_soon FIFO; one outstanding probe completes at a time, which one is solver-chosen; a probe that raises completes its task '
               'with the exception).  Declined (no bounded encoding within reach): the hit guarantee in a loss-free network of 2..40 real nodes '
-              '(whole-network asyncio schedules), RPC timeouts as elapsed time, the value finder\'s termination.')
+              '(whole-network asyncio schedules), RPC timeouts as elapsed time.')
 ASSUMPTIONS = ['(e) contacts answer find_node as RemoteKademliaRPC would hand it to the finder: a list of (id, address, port), an exception (timeout, remote '
                'error) or a garbage payload; a reply marks the contact as good before the finder sees the payload', 'loop.time() = symbolic non-decreasing integers', 'peer manager stub: peer_is_good is a symbolic three-valued answer',
                'client and server are wired directly (the datagram codec is C17); find_node returns no contacts; make_token is a constant']
-OUTSIDE = ['hit guarantee across a network of nodes', 'lookups over more than 4 contacts', 'termination of value lookups', 'virtual time to completion']
+OUTSIDE = ['hit guarantee across a network of nodes', 'lookups over more than 4 contacts', 'virtual time to completion']
 
 DAY = constants.DATA_EXPIRATION
 KEY = bytes(range(48))
